@@ -6,6 +6,8 @@
 //   b<n>  pool.scheduleBulk(n, gen)           t<n>  TaskSet(pool).scheduleBulk(n, gen)   (ring fast path when n*4>=threads, n<=threads)
 //   p<k>  pool.schedulePlaced(task, Force)    P<n>  pool.scheduleBulkPlaced(n, gen)      (friend-only API: steal rings)
 //   r<n>  pool.resize(n)                      q     wait for quiescence (snapshot)
+//   h<n>  hold: block (cooperatively) until n worker batch flushes ("pool.wr.sub" site 3) have been logged in total -- used by the
+//         deterministic probes that must keep workers parked right after their flush (awake, counted as working)
 // After its program producer 0 waits for the other producers, then (finalq = 1, default) waits for quiescence (snapshot), disposes of the task sets
 // (the harness polls the central queue and rings [0, numRings_) exactly like TaskSet::wait; a set whose outstanding count is still not zero
 // when nothing pollable is left is reported as "wait would hang" and leaked; every other set is destroyed) and destroys the pool.  With finalq = 0 the pool is destroyed right after the other producers
@@ -114,6 +116,7 @@ static std::vector<Op> parseProg(const std::string& s) {
 
 static std::vector<dispenso::TaskSet*> g_sets;
 static long g_finalq = 1;
+static std::atomic<long> g_flushes{0};
 
 static void runProg(size_t me, const std::vector<Op>& prog, size_t nprod, const std::vector<int>& prodTids) {
   dispenso::ThreadPool& pool = *g_pool;
@@ -131,6 +134,7 @@ static void runProg(size_t me, const std::vector<Op>& prog, size_t nprod, const 
       }
       case 'r': pool.resize(static_cast<ssize_t>(o.a)); break;
       case 'q': S->waitQuiescent(); break;
+      case 'h': { long n = o.a; S->blockUntil([n]() { return g_flushes.load() >= n; }, "hold.done"); break; }
       default: break;
     }
   }
@@ -187,6 +191,7 @@ static void runCase(const std::string& line) {
   sch.polledWork = polledWork;
   sch.onEvent = [](const vsp::Ev& e) {
     if (e.name == "pool.dtor.end") snapshotK("F");
+    if (e.name == "pool.wr.sub" && e.b == 3) g_flushes.fetch_add(1);
   };
   g_sets.assign(progs.size(), nullptr);
   // producers first (tids 0..P-1), then the pool (its workers enrol as P, P+1, ...)
